@@ -19,12 +19,23 @@ the handlers' decisions, proved for every broker state:
   ownership (`destroy_object_*`, `create_service_*`);
 * version queries succeed exactly while the cookie is live (`query_version_live`), calls to a dead
   cookie are answered `InvalidService` (C02 `no_service`).
-Partial: cascading destruction and "everything owned is destroyed on disconnect" over histories need the
-registry cross-reference invariant (cookie map ↔ uuid map ↔ per-object / per-connection sets); tied by
-the correspondence runs over a pool of 4 uuids (collisions, re-creation, foreign access, disconnects).
+For ALL histories the registry cross-reference invariant holds between two events
+(`registry_cross_references_all_histories`, from `Lemmas/Broker/{XReg,RegView,RegFrame,Reg}.lean`: the cookie map
+and the uuid map of objects name each other, the owner of every object is a connection that is still there and
+lists it, what a connection lists is an object it owns, the cookie map and the uuid map of services name each
+other, every service hangs off a live object that lists it, what an object lists is one of its services). Its
+consequences, each for every history: `owner_is_connected_and_lists_object`, `service_hangs_off_live_object`,
+`listed_service_is_registered`, `connection_lists_only_own_objects`; cascading destruction:
+`services_of_a_dead_object_are_dead` (whenever an object cookie is not registered, no registered service refers to
+it), `destroy_object_unregisters` / `destroy_service_unregisters` (after an accepted destroy request the cookie is
+not registered, and the invariant holds again, so all services of the object are gone with it);
+`objects_of_a_gone_connection_are_gone` (no object is owned by a connection that is not there — whatever way it
+went: shutdown message, transport error, forced by the handle, broker shutdown).
+Still tied by the correspondence runs only: the *messages* the cascade sends (`ServiceDestroyed`, bus events).
 -/
 import Aldrin.Lemmas.Broker.Events
 import Aldrin.Lemmas.Broker.Gauge5
+import Aldrin.Lemmas.Broker.Reg
 
 namespace Aldrin.Broker
 
@@ -102,6 +113,152 @@ theorem query_version_live {s : St} {id serial svc} {c : Conn} (hc : AL.find? id
     queryServiceVersion s id serial svc =
       .ok (s.send id (.queryServiceVersionReply serial ((AL.find? svc s.b.svcUuids).map (·.2.2.version)))) :=
   queryServiceVersion_spec hc
+
+/-! ### the cross-reference invariant of the registry, for every history -/
+
+/-- the invariant in plain terms -/
+structure RegistryConsistent (b : Broker) : Prop where
+  cookie_names_object : ∀ c u, AL.find? c b.objUuids = some u → ∃ o, AL.find? u b.objs = some o ∧ o.cookie = c
+  object_is_registered : ∀ u o, AL.find? u b.objs = some o → AL.find? o.cookie b.objUuids = some u
+  owner_lists_object : ∀ u o, AL.find? u b.objs = some o → ∃ conn, AL.find? o.conn b.conns = some conn ∧ o.cookie ∈ conn.objects
+  listed_object_is_owned : ∀ id conn c, AL.find? id b.conns = some conn → c ∈ conn.objects →
+    ∃ u o, AL.find? c b.objUuids = some u ∧ AL.find? u b.objs = some o ∧ o.conn = id
+  cookie_names_service : ∀ sc oid svu info, AL.find? sc b.svcUuids = some (oid, svu, info) →
+    ∃ sv, AL.find? (oid.uuid, svu) b.svcs = some sv ∧ sv.cookie = sc ∧ sv.objCookie = oid.cookie
+  service_is_registered : ∀ obu svu sv, AL.find? (obu, svu) b.svcs = some sv →
+    ∃ info, AL.find? sv.cookie b.svcUuids = some (⟨obu, sv.objCookie⟩, svu, info)
+  service_has_live_object : ∀ sc oid svu info, AL.find? sc b.svcUuids = some (oid, svu, info) →
+    AL.find? oid.cookie b.objUuids = some oid.uuid ∧ ∃ o, AL.find? oid.uuid b.objs = some o ∧ sc ∈ o.svcs
+  listed_service_is_of_object : ∀ u o sc, AL.find? u b.objs = some o → sc ∈ o.svcs →
+    ∃ svu info, AL.find? sc b.svcUuids = some (⟨u, o.cookie⟩, svu, info)
+
+theorem RegistryConsistent.of_reg {b : Broker} {w : Work} {out : List Out} (h : Reg none none ⟨b, w, out⟩) : RegistryConsistent b := by
+  obtain ⟨h1, h2, h3, h4, h5, h6, h7, h8⟩ := h
+  refine ⟨h1, h2, ?_, ?_, ?_, ?_, ?_, h8⟩
+  · intro u o ho
+    rcases h3 u o ho with ⟨l, hl, hm⟩ | ⟨l, hl, _⟩
+    · simp only [ro] at hl
+      split at hl
+      · rename_i conn hc; simp at hl; subst hl; exact ⟨conn, hc, hm⟩
+      · simp at hl
+    · simp at hl
+  · intro id conn c hc hm
+    exact h4 id conn.objects c (ro_find hc) hm
+  · intro sc oid svu info hs
+    have := h5 sc oid svu info hs
+    simp only [sk, skl] at this
+    split at this
+    · rename_i sv hsv; simp at this; exact ⟨sv, hsv, this.1, this.2⟩
+    · simp at this
+  · intro obu svu sv hsv
+    exact h6 obu svu sv.cookie sv.objCookie (sk_find hsv)
+  · intro sc oid svu info hs
+    rcases h7 sc oid svu info hs with h | ⟨l, hl, _⟩
+    · exact h
+    · simp at hl
+
+/-- for ALL histories: between two events the registry's maps, the per-object service sets and the per-connection
+object sets agree with each other -/
+theorem registry_cross_references_all_histories (es : List Event) (b : Broker) (w : Work) (outs : List (List Out))
+    (h : run {} {} es = .ok (b, w, outs)) : RegistryConsistent b :=
+  RegistryConsistent.of_reg (run_reg es _ _ _ _ _ G5_init Reg.init h)
+
+/-- the owner of every object is connected and lists the object -/
+theorem owner_is_connected_and_lists_object (es : List Event) (b : Broker) (w : Work) (outs : List (List Out))
+    (h : run {} {} es = .ok (b, w, outs)) {u : Uuid} {o : Obj} (ho : AL.find? u b.objs = some o) :
+    ∃ conn, AL.find? o.conn b.conns = some conn ∧ o.cookie ∈ conn.objects :=
+  (registry_cross_references_all_histories es b w outs h).owner_lists_object u o ho
+
+/-- a connection lists only objects it owns: what a disconnect destroys is the connection's own -/
+theorem connection_lists_only_own_objects (es : List Event) (b : Broker) (w : Work) (outs : List (List Out))
+    (h : run {} {} es = .ok (b, w, outs)) {id : ConnId} {conn : Conn} {c : Cookie} (hc : AL.find? id b.conns = some conn)
+    (hm : c ∈ conn.objects) : ∃ u o, AL.find? c b.objUuids = some u ∧ AL.find? u b.objs = some o ∧ o.conn = id :=
+  (registry_cross_references_all_histories es b w outs h).listed_object_is_owned id conn c hc hm
+
+/-- every registered service hangs off a live object which lists it -/
+theorem service_hangs_off_live_object (es : List Event) (b : Broker) (w : Work) (outs : List (List Out))
+    (h : run {} {} es = .ok (b, w, outs)) {sc : Cookie} {oid : ObjId} {svu : Uuid} {info : SvcInfo}
+    (hs : AL.find? sc b.svcUuids = some (oid, svu, info)) :
+    AL.find? oid.cookie b.objUuids = some oid.uuid ∧ ∃ o, AL.find? oid.uuid b.objs = some o ∧ sc ∈ o.svcs :=
+  (registry_cross_references_all_histories es b w outs h).service_has_live_object sc oid svu info hs
+
+theorem listed_service_is_registered (es : List Event) (b : Broker) (w : Work) (outs : List (List Out))
+    (h : run {} {} es = .ok (b, w, outs)) {u : Uuid} {o : Obj} {sc : Cookie} (ho : AL.find? u b.objs = some o) (hm : sc ∈ o.svcs) :
+    ∃ svu info, AL.find? sc b.svcUuids = some (⟨u, o.cookie⟩, svu, info) :=
+  (registry_cross_references_all_histories es b w outs h).listed_service_is_of_object u o sc ho hm
+
+/-- cascading destruction: whenever an object cookie is not (or no longer) registered, no registered service refers
+to it -/
+theorem services_of_a_dead_object_are_dead (es : List Event) (b : Broker) (w : Work) (outs : List (List Out))
+    (h : run {} {} es = .ok (b, w, outs)) {c : Cookie} (hc : AL.find? c b.objUuids = none)
+    {sc : Cookie} {oid : ObjId} {svu : Uuid} {info : SvcInfo} (hs : AL.find? sc b.svcUuids = some (oid, svu, info)) :
+    oid.cookie ≠ c := by
+  intro he
+  have := (service_hangs_off_live_object es b w outs h hs).1
+  rw [he, hc] at this; simp at this
+
+/-- a disconnect destroys everything the connection owned: no object is owned by a connection that is not there -/
+theorem objects_of_a_gone_connection_are_gone (es : List Event) (b : Broker) (w : Work) (outs : List (List Out))
+    (h : run {} {} es = .ok (b, w, outs)) {id : ConnId} (hgone : AL.find? id b.conns = none) {u : Uuid} {o : Obj}
+    (ho : AL.find? u b.objs = some o) : o.conn ≠ id := by
+  intro he
+  obtain ⟨conn, hc, _⟩ := owner_is_connected_and_lists_object es b w outs h ho
+  rw [he, hgone] at hc; simp at hc
+
+/-- an accepted `DestroyObject` (owner, reply delivered) unregisters the object's cookie and leaves the registry
+consistent — so, by `services_of_a_dead_object_are_dead`, without any service of that object -/
+theorem destroy_object_unregisters {s s' : St} {id serial c u} {conn : Conn} {o : Obj} (h : Reg none none s)
+    (hc : AL.find? id s.b.conns = some conn) (ha : conn.alive = true) (hu : AL.find? c s.b.objUuids = some u)
+    (ho : AL.find? u s.b.objs = some o) (hown : o.conn = id) (hr : destroyObject s id serial c = .ok (s', true)) :
+    AL.find? c s'.b.objUuids = none ∧ Reg none none s' ∧
+      ∀ sc oid svu info, AL.find? sc s'.b.svcUuids = some (oid, svu, info) → oid.cookie ≠ c := by
+  have hreg := destroyObject_reg h hr
+  have hnone : AL.find? c s'.b.objUuids = none := by
+    unfold destroyObject at hr
+    simp only [St.conn?, hc, hu, ho, hown] at hr
+    simp only [ne_eq, not_true_eq_false, ↓reduceIte] at hr
+    have hs : (s.send id (Rsp.destroyObjectReply serial DestroyObjRes.ok)).2 = true := by simp [St.send, St.conn?, hc, ha]
+    simp only [hs, Bool.not_true, Bool.false_eq_true, ↓reduceIte] at hr
+    split at hr
+    · simp at hr
+    · rename_i s1 h1
+      simp only [okH, Except.ok.injEq, Prod.mk.injEq, and_true] at hr
+      subst hr
+      exact (removeObject_reg (pc := none) (Reg.of_same h (by reg_eq)) h1).2
+  refine ⟨hnone, hreg, ?_⟩
+  intro sc oid svu info hs he
+  rcases hreg.i7 sc oid svu info hs with ⟨ha', _⟩ | ⟨l, hl, _⟩
+  · simp only [ouv] at ha'; rw [he, hnone] at ha'; simp at ha'
+  · simp at hl
+
+/-- an accepted `DestroyService` unregisters the service's cookie and leaves the registry consistent -/
+theorem destroy_service_unregisters {s s' : St} {id serial c} {conn : Conn} {oid : ObjId} {svu : Uuid} {info : SvcInfo} {o : Obj}
+    (h : Reg none none s) (hc : AL.find? id s.b.conns = some conn) (ha : conn.alive = true)
+    (hu : AL.find? c s.b.svcUuids = some (oid, svu, info)) (ho : AL.find? oid.uuid s.b.objs = some o) (hown : o.conn = id)
+    (hr : destroyService s id serial c = .ok (s', true)) :
+    AL.find? c s'.b.svcUuids = none ∧ Reg none none s' := by
+  refine ⟨?_, destroyService_reg h hr⟩
+  unfold destroyService at hr
+  simp only [St.conn?, hc, hu, ho, hown] at hr
+  simp only [ne_eq, not_true_eq_false, ↓reduceIte] at hr
+  have hs : (s.send id (Rsp.destroyServiceReply serial DestroySvcRes.ok)).2 = true := by simp [St.send, St.conn?, hc, ha]
+  simp only [hs, Bool.not_true, Bool.false_eq_true, ↓reduceIte] at hr
+  split at hr
+  · simp at hr
+  · rename_i s1 h1
+    simp only [okH, Except.ok.injEq, Prod.mk.injEq, and_true] at hr
+    subst hr
+    exact (removeService_reg (pc := none) (ps := none) (Reg.of_same h (by reg_eq)) h1).2.1
+
+/-! non-vacuity of the invariant's clauses: a state with two connections, an object with a service, and a second object -/
+example : (match run {} {} [.newConn 0 20, .newConn 1 20, .msg 0 (.createObject 1 5), .msg 0 (.createService 2 0 6 3),
+      .msg 1 (.createObject 3 7)] with
+    | .ok (b, _, _) => (b.objUuids, b.objs.map (fun p => (p.1, p.2.conn, p.2.cookie, p.2.svcs)))
+    | .error _ => ([], [])) = ([(0, 5), (2, 7)], [(5, 0, 0, [1]), (7, 1, 2, [])]) := by decide
+example : (match run {} {} [.newConn 0 20, .newConn 1 20, .msg 0 (.createObject 1 5), .msg 0 (.createService 2 0 6 3),
+      .msg 1 (.createObject 3 7)] with
+    | .ok (b, _, _) => (b.svcUuids.map (fun p => (p.1, p.2.1.uuid, p.2.1.cookie, p.2.2.1)), b.conns.map (fun p => (p.1, p.2.objects)))
+    | .error _ => ([], [])) = ([(1, 5, 0, 6)], [(0, [0]), (1, [2])]) := by decide
 
 /-! non-vacuity: re-creation after destruction gives a new cookie; a foreign destroy is refused; destroying
 the object destroys its service (the later query says so) -/
